@@ -1,4 +1,4 @@
-import BoltonsVerif.C14.Errors
+import BoltonsVerif.C14.StrDelims
 /-
 C14 — property theorems for the model of the `boltons.strutils` encoders.
 
@@ -541,6 +541,98 @@ example : parseIntList "1-,3".toList = none := by decide +kernel
 example : parseIntList " 1 , 2-4 \n".toList = some [1, 2, 3, 4] := by decide +kernel
 example : parseIntList "1 2".toList = none := by decide +kernel
 example : parseIntList "3-1-2".toList = some [1, 2, 3] := by decide +kernel
+
+/-! ### multi-character delimiters (round 3)
+
+`delim` / `range_delim` may be arbitrary non-empty strings (`'; '`, `' to '`, `'..'`).  `formatIntListS`,
+`parseIntListS`, `complementIntListS`, `intRangesS` model the functions with string delimiters (`str.split`
+with a string separator, `range_delim in x`); for one-character strings they coincide with the functions above
+(`strdelims_extend_chars`).  The clauses hold for every pair with `DelimOKS d rd`: both non-empty, the first
+character of `delim` is not a digit, not a space and does not occur in `range_delim`, the first character of
+`range_delim` is not a digit - and not a space where `delim_space=True` is used (hypothesis `hsp`). -/
+
+/-- round trip for every admissible pair of string delimiters, with or without `delim_space` -/
+theorem int_roundtrip_strdelims (d rd : Str) (ok : DelimOKS d rd) (L : List Nat) (sp : Bool)
+    (hsp : sp = true → rd.head? ≠ some ' ') :
+    parseIntListS (formatIntListS L sp d rd) d rd = some (sortDedup L) :=
+  parse_formatS d rd ok L sp hsp
+
+example : DelimOKS "; ".toList " to ".toList := by decide
+example : DelimOKS ",".toList "..".toList := by decide
+example : ¬ DelimOKS "-x".toList "-".toList := by decide
+example : ¬ DelimOKS "".toList "-".toList := by decide
+example : formatIntListS [8, 1, 3, 5, 7, 6, 3, 10, 11, 15] false "; ".toList "..".toList =
+    "1; 3; 5..8; 10..11; 15".toList := by decide +kernel
+-- the hypothesis is needed: a delimiter whose first character occurs in the range delimiter cuts range tokens apart
+example : ¬ DelimOKS "-".toList "->".toList := by decide
+example : parseIntListS (formatIntListS [1, 2, 3, 7] false "-".toList "->".toList) "-".toList "->".toList = none := by
+  decide +kernel
+
+/-- canonical output for every pair of string delimiters (no hypothesis needed) -/
+theorem format_canonical_strdelims (d rd : Str) (L : List Nat) (sp : Bool) :
+    ∃ rs, formatIntListS L sp d rd = join (if sp then d ++ [' '] else d) (rs.map (renderRangeS rd)) ∧
+      Canon rs ∧ ∀ x, Covers rs x ↔ x ∈ L :=
+  ⟨runs (isort L), formatS_eq d rd L sp, (runs_isort_spec L).1, (runs_isort_spec L).2⟩
+
+/-- ... and it is THE canonical rendering -/
+theorem format_canonical_unique_strdelims (d rd : Str) (L : List Nat) (sp : Bool) (rs : List (Nat × Nat))
+    (hc : Canon rs) (hm : ∀ x, Covers rs x ↔ x ∈ L) :
+    formatIntListS L sp d rd = join (if sp then d ++ [' '] else d) (rs.map (renderRangeS rd)) := by
+  obtain ⟨rs', h1, h2, h3⟩ := format_canonical_strdelims d rd L sp
+  rw [h1, canon_unique rs' rs h2 hc (fun x => by rw [h3, hm])]
+
+/-- every well-formed range string written with admissible string delimiters is read as the sorted list of
+    the integers it denotes -/
+theorem parse_range_string_strdelims (d rd : Str) (ok : DelimOKS d rd) (sp : Bool)
+    (hsp : sp = true → rd.head? ≠ some ' ') (rs : List (Nat × Nat)) (h : ∀ r ∈ rs, r.1 ≤ r.2) :
+    ∃ R, parseIntListS (join (if sp then d ++ [' '] else d) (rs.map (renderRangeS rd))) d rd = some R ∧
+      R.Pairwise (· ≤ ·) ∧ ∀ x, x ∈ R ↔ Covers rs x :=
+  ⟨isort (expand rs), parse_renderS d rd ok sp hsp rs h, isort_sorted _, fun x => by rw [mem_isort, mem_expand]⟩
+
+/-- `complement_int_list` with string delimiters: exactly the missing integers of the window, canonical -/
+theorem complement_exact_strdelims (d rd : Str) (ok : DelimOKS d rd) (s : Str) (l : List Nat) (a e : Int)
+    (h : parseIntListS s d rd = some l) :
+    ∃ t R, complementIntListS s a (some e) d rd = some t ∧ parseIntListS t d rd = some R ∧
+      R.Pairwise (· < ·) ∧ (∀ x : Nat, x ∈ R ↔ (a ≤ (x : Int) ∧ (x : Int) < e ∧ x ∉ l)) ∧
+      ∃ rs, t = join d (rs.map (renderRangeS rd)) ∧ Canon rs := by
+  let M := (List.range e.toNat).filter fun x => !l.contains x && !decide ((x : Int) < a)
+  refine ⟨formatIntListS M false d rd, sortDedup M, by simp only [complementIntListS, h, M],
+    int_roundtrip_strdelims d rd ok M false (by simp), sortDedup_sorted M, fun x => ?_, runs (isort M),
+    by simpa using formatS_eq d rd M false, (runs_isort_spec M).1⟩
+  rw [mem_sortDedup]
+  simp only [M]
+  simp only [List.mem_filter, List.mem_range, Bool.and_eq_true, Bool.not_eq_true',
+    List.contains_eq_mem, decide_eq_false_iff_not]
+  constructor
+  · rintro ⟨h1, h2, h3⟩; exact ⟨by omega, by omega, by simpa using h2⟩
+  · rintro ⟨h1, h2, h3⟩; exact ⟨by omega, by simpa using h3, by omega⟩
+
+example : complementIntListS "1; 3; 5 to 8".toList 2 (some 11) "; ".toList " to ".toList =
+    some "2; 4; 9 to 10".toList := by decide +kernel
+
+/-- `int_ranges_from_int_list` with string delimiters: the maximal ranges of what the text denotes -/
+theorem int_ranges_exact_strdelims (d rd : Str) (s : Str) (l : List Nat) (h : parseIntListS s d rd = some l) :
+    ∃ rs, intRangesS s d rd = some rs ∧ Canon rs ∧ ∀ x, Covers rs x ↔ x ∈ l := by
+  have hd := intRanges_of_parseD ',' '-' (formatIntList l) (sortDedup l) (int_roundtrip_eq l)
+  refine ⟨runs (isort l), ?_, (runs_isort_spec l).1, (runs_isort_spec l).2⟩
+  have hfmt : formatIntList (sortDedup l) = formatIntList l :=
+    format_members_only _ _ (fun x => mem_sortDedup l x)
+  have hruns : runs (isort (sortDedup l)) = runs (isort l) := by
+    have h1 := format_eq (sortDedup l)
+    have h2 := format_eq l
+    rw [hfmt] at h1
+    exact canon_unique _ _ (runs_isort_spec _).1 (runs_isort_spec _).1
+      (fun x => by rw [(runs_isort_spec _).2, (runs_isort_spec _).2, mem_sortDedup])
+  simp only [intRangesS, h]
+  simp only [intRanges, int_roundtrip_eq l, hfmt] at hd
+  rw [← hruns]
+  exact hd
+
+/-- with one-character delimiters the string-delimiter functions ARE the functions of the earlier sections -/
+theorem strdelims_extend_chars (d rd : Char) (L : List Nat) (sp : Bool) (s : Str) :
+    formatIntListS L sp [d] [rd] = formatIntList L sp d rd ∧
+    parseIntListS s [d] [rd] = parseIntList s d rd :=
+  ⟨formatS_single d rd L sp, parseS_single d rd s⟩
 
 /-- translator obligation: the default `delim` / `range_delim` of the integer-list functions (read from the
     signatures on every run) form an admissible pair, so every `_delims` theorem applies to the defaults
